@@ -404,6 +404,8 @@ def cli_history(hist, seed_parts, rec):
         prev_done = set()
         for run_no in range(len(hist['runs'])):
             case = case_for_run(hist, run_no)
+            if not case['tasks']:
+                continue        # every task of the job is added later
             # sometimes only a part of the job is asked for
             if run_no and rng.random() < 0.35:
                 _, clo = transitive(case)
